@@ -266,6 +266,11 @@ def tasks(tier):
                      f"sched={int(sched)},graft={graft}]", mk_chain(ema, nest, wda, wd_on, mom_on, sched, graft)))
   ts.append(Task("chain on a merged parameter", t_chain_merged))
   ts.append(Task("shampoo statistics and roots", t_shampoo_math))
+  # "... by the exact inverse roots of its decayed covariances": the roots in use are those of the statistics current at
+  # the latest refresh step, whatever the statistics schedule (shared with C04)
+  from contracts import c04
+  for w in ("none", "stats", "precond", "both"):
+    ts.append(Task(f"shampoo roots follow the preconditioner schedule[{w}]", c04.mk_tf_shampoo(w)))
   for shp in ([(3,), (3, 2)] if tier == "quick" else [(3,), (3, 2), (2, 3), (2, 2, 2)]):
     ts.append(Task(f"sketchy application[shape={shp}]", mk_sketchy_apply(shp)))
   return ts
